@@ -618,6 +618,8 @@ pub fn fuzz_stage(
             // safety valve only: the stage is sized by -runs; a worker that meets slow inputs
             // stops after 20 minutes with fewer executions (reported), never with a verdict
             .arg("-max_total_time=1200")
+            // a single input running longer than this is reported by libFuzzer (and noted below)
+            .arg("-timeout=120")
             .env("VERIF_FUZZ_OUT", &out_dir)
             .env("RUST_BACKTRACE", "0")
             .stdin(std::process::Stdio::null())
